@@ -161,8 +161,10 @@ def gen_case(seed, i):
     for n_ in (net, netb):
         k = 0
         for cl in n_.clusters:
-            if cl.kind in ("vectors", "coords"):
+            if cl.kind == "coords":
                 cl.extern = exts[k]
+            if cl.kind == "vectors":          # extern is an attribute of <vec>, which netgen does not write: see gkf()
+                cl.vec_extern = [exts[(k + 1 + j) % len(exts)] for j in range(len(cl.vecs))]
             k += 1
             for o in cl.obs:
                 if place == "extern" or (k % 3 == 0):
@@ -343,9 +345,10 @@ def scrape_text(text, R):
         iv = [j for j, x in enumerate(t) if re.fullmatch(r"-?\d+\.\d{3}", x)]
         if not iv:
             continue
-        j = iv[-1]
-        f = [x for x in t[:j] if re.fullmatch(r"\d+\.\d", x)]
-        S["res"].append((f[-1] if f else None, t[j]))
+        # f[%] (one decimal) is the last such number before v; the type word or a flag may be glued to it
+        head = " ".join(t[:iv[-1]])
+        f = re.findall(r"(?<![\d.])\d+\.\d(?!\d)", head)
+        S["res"].append((f[-1] if f else None, t[iv[-1]]))
     return S
 
 
@@ -566,7 +569,7 @@ def unknown_table(R):
 
 # ------------------------------------------------------------------------------------------- oracles
 
-def cmp_scrape(L, viol, fmt, S, R, T, angular):
+def cmp_scrape(L, viol, fmt, S, R, T, angular, ys="+1"):
     """numbers scraped from the text / HTML output against the XML of the same run"""
     P = "cross:%s:" % fmt
     deg = (angular == "360")
@@ -636,7 +639,12 @@ def cmp_scrape(L, viol, fmt, S, R, T, angular):
         for k, ((so, sa, sd), o) in enumerate(zip(S["obs"], O)):
             ang = o["tag"] in ANGULAR_TAGS
             n += 3
+            ytype = o["tag"] in ("coordinate-y", "dy")
             for cell, x, nm in ((so, o["obs"], "observed"), (sa, o["adj"], "adjusted")):
+                if ytype and ys == "-1" and _num.match(cell) and abs(float(cell) + x) <= half_ulp(cell) + 1e-9 < abs(x):
+                    viol(P + "obs:%s:y-sign" % nm, "%s value of observation %d (%s) is %s, the XML has %.6f: the sign of y "
+                         "is not the one of the coordinates" % (nm, k + 1, o["tag"], cell, x))
+                    continue
                 if ang:
                     v, h = ang_value(cell)
                     check_close(L, viol, P + "obs:%s:%s" % (nm, "angular"), fmt + ": angle / printed precision",
@@ -647,7 +655,8 @@ def cmp_scrape(L, viol, fmt, S, R, T, angular):
                                 float(cell), x, half_ulp(cell) + 1e-9,
                                 "%s value of observation %d (%s)" % (nm, k + 1, o["tag"]), " m")
             x = o["stdev"] * (asc if ang else 1.0)
-            check_close(L, viol, P + "obs:stdev", fmt + ": std.dev / printed precision", float(sd), x,
+            az = ":azimuth:360" if (o["tag"] == "azimuth" and deg) else ""
+            check_close(L, viol, P + "obs:stdev" + az, fmt + ": std.dev / printed precision", float(sd), x,
                         half_ulp(sd) + 1e-9, "std. deviation of adjusted observation %d (%s)" % (k + 1, o["tag"]))
     if len(S["res"]) != len(O):
         viol(P + "residuals:count", "%d residuals in the %s output, %d observations in the XML" % (
@@ -658,7 +667,12 @@ def cmp_scrape(L, viol, fmt, S, R, T, angular):
             r = wrap400(o["adj"] - o["obs"]) * 10000.0 * asc if ang else (o["adj"] - o["obs"]) * 1000.0
             n += 2
             # obs/adj carry 16 decimals of a metre / gon: 1e-12 m -> 1e-9 mm, 1e-12 gon -> 1e-8 cc
-            check_close(L, viol, P + "residual", fmt + ": residual / printed precision", float(v), r,
+            az = ":azimuth:360" if (o["tag"] == "azimuth" and deg) else ""
+            if o["tag"] in ("coordinate-y", "dy") and ys == "-1" and abs(float(v) + r) <= half_ulp(v) + 1e-6 < abs(r):
+                viol(P + "residual:y-sign", "residual of observation %d (%s) is %s, adjusted - observed is %.3f: sign of "
+                     "the residual of a y-type observation in a network with flipped y" % (k + 1, o["tag"], v, r))
+                continue
+            check_close(L, viol, P + "residual" + az, fmt + ": residual / printed precision", float(v), r,
                         half_ulp(v) + 1e-6, "residual of observation %d (%s)" % (k + 1, o["tag"]))
             if f is not None and f != "":
                 check_close(L, viol, P + "f", fmt + ": f / printed precision", float(f), o["f"],
@@ -967,7 +981,7 @@ def cmp_octave(L, viol, V, bad, R, T, C, c):
                 "m_0_aposteriori (standard deviation in use: %s, a priori %s)" % (R["used"], R["apriori"]))
     n += 3
     fx = list(R["fixed"].items())
-    if [p for p, _ in fx] != V["FixedPoints"]:
+    if not bad and [p for p, _ in fx] != V["FixedPoints"]:
         viol(P + "FixedPoints", "FixedPoints = %r, XML fixed points %r" % (V["FixedPoints"][:5], [p for p, _ in fx][:5]))
     if len(V["FixedXYZ"]) != len(fx):
         viol(P + "FixedXYZ:rows", "%d rows, %d fixed points" % (len(V["FixedXYZ"]), len(fx)))
@@ -978,10 +992,14 @@ def cmp_octave(L, viol, V, bad, R, T, C, c):
             for a, cell in zip(("x", "y", "z"), row[2:]):
                 if a in v:
                     n += 1
+                    if a == "y" and ysign(c["frame"]) == "-1" and abs(float(cell) + v[a]) <= 1e-6 < abs(v[a]):
+                        viol(P + "FixedXYZ:y-sign", "fixed y of %r is %s, the XML (and XYZ of the same file) use the "
+                             "opposite sign: %.6f" % (pid, cell, v[a]))
+                        continue
                     check_close(L, viol, P + "FixedXYZ:" + a, "octave: coordinate / printed precision", float(cell), v[a],
                                 half_ulp(cell) + 0.5e-6 + 1e-9, "fixed %s of %r" % (a, pid), " m")
     exp = [(pid, R["adjusted"][pid]) for pid in R["adjusted_order"]]
-    if [p for p, _ in exp] != V["Points"]:
+    if not bad and [p for p, _ in exp] != V["Points"]:
         viol(P + "Points", "Points = %r, XML adjusted points %r" % (V["Points"][:5], [p for p, _ in exp][:5]))
     byid = {}
     for i, t in T.items():
@@ -1014,6 +1032,10 @@ def cmp_octave(L, viol, V, bad, R, T, C, c):
                 a = float(M[i][j])
                 tol = 1.1e-7 * max(abs(a), abs(x)) + 1e-10 * math.sqrt(abs(C[i, i] * C[j, j])) + 1e-300
                 kind = "diagonal" if i == j else "off-diagonal"
+                if ysign(c["frame"]) == "-1" and abs(a + x) <= tol < abs(x):
+                    viol(P + "C_xx:y-sign", "C_xx(%d,%d) = %s, cov-mat of the XML %.8g: the covariances of y keep the "
+                         "internal sign while XYZ lists y with the sign of the input" % (i + 1, j + 1, M[i][j], x))
+                    continue
                 check_close(L, viol, P + "C_xx:" + kind, "octave: C_xx / 8 significant digits", a, x, tol,
                             "C_xx(%d,%d) vs cov-mat" % (i + 1, j + 1))
                 a2 = float(M[j][i])
@@ -1176,17 +1198,37 @@ def _cause(c, where=None):
     return "%s:%s" % (c["place"], cls.split("-", 1)[1] if cls.startswith("special-") else cls)
 
 
+def gkf(net, fr):
+    """netgen's serialisation + the extern attribute of <vec> elements"""
+    txt = netgen.to_gkf(net, fr)
+    vex = [e for cl in net.clusters if cl.kind == "vectors" for e in getattr(cl, "vec_extern", [])]
+    if vex:
+        out, k = [], 0
+        for l in txt.split("\n"):
+            if l.startswith("<vec ") and l.endswith(" />") and k < len(vex):
+                l = l[:-3] + ' extern="%s" />' % netgen.esc(vex[k])
+                k += 1
+            out.append(l)
+        txt = "\n".join(out)
+    return txt
+
+
 def expected_strings(c):
+    """ids as gama identifies them; extern values as tokens (the XSD types extern as xs:token)"""
     net, fr = c["net"], c["frame"]
     ids = {norm_id(fr.pid(p)) for p in net.points}
-    ext = set()
+    ext, must = set(), set()
     for cl in net.clusters:
-        if cl.extern is not None and cl.kind in ("vectors", "coords"):
-            ext.add(cl.extern)
+        if cl.extern is not None and cl.kind == "coords":
+            ext.add(norm_id(cl.extern))
+        for e in getattr(cl, "vec_extern", []):
+            ext.add(norm_id(e))
+            must.add(norm_id(e))
         for o in cl.obs:
             if o.extern is not None:
-                ext.add(o.extern)
-    return ids, ext
+                ext.add(norm_id(o.extern))
+                must.add(norm_id(o.extern))
+    return ids, ext, must
 
 
 def xml_strings(R):
@@ -1245,8 +1287,8 @@ def _run_case(L, seed, i, tier, tmp):
         if extra:
             w.update(extra)
         L.violation(key, what + " [case %d, %s, hostile %s]" % (i, kind, cause), w)
-    txtA = netgen.to_gkf(net, fr)
-    txtB = netgen.to_gkf(c["netb"], fr)
+    txtA = gkf(net, fr)
+    txtB = gkf(c["netb"], fr)
     args = ["--algorithm", c["alg"], "--angular", c["angular"]]
     if band is not None:
         args += ["--cov-band", str(band)]
@@ -1278,7 +1320,7 @@ def _run_case(L, seed, i, tier, tmp):
         return
     T = C = None
     if R is not None:
-        eids, eext = expected_strings(c)
+        eids, eext, emust = expected_strings(c)
         xids, xext = xml_strings(R)
         padj = {norm_id(fr.pid(p)) for p, q in net.points.items()
                 if q.xy in ("free", "constrained") or q.z in ("free", "constrained")}
@@ -1286,8 +1328,9 @@ def _run_case(L, seed, i, tier, tmp):
             odd = sorted(xids - eids)[:4] or sorted(set(R["adjusted"]) ^ padj)[:4]
             viol("xml:content:id:" + (cause.split(":")[1] if c["place"] == "id" else c["idcls"]),
                  "point ids in the XML that are not ids of the input: %r" % odd)
-        if not xext <= eext or not {o.extern for _, o in net.all_obs() if o.extern is not None} <= xext:
-            odd = sorted(xext - eext)[:3] or sorted(eext - xext)[:3]
+        xext = {norm_id(x) for x in xext}
+        if not xext <= eext or not emust <= xext:
+            odd = sorted(xext - eext)[:3] or sorted(emust - xext)[:3]
             viol("xml:content:extern:" + (cause.split(":")[1] if c["place"] == "extern" else c["extcls"]),
                  "extern values differ from the input's: %r" % [x[:60] for x in odd])
         if (R["description"] or "").strip() != c["desc"].strip():
@@ -1331,7 +1374,7 @@ def _run_case(L, seed, i, tier, tmp):
                 H = None
                 viol("cross:html:structure", "tables not found: %r" % e)
             if H is not None:
-                cmp_scrape(L, viol, "html", H, R, T, c["angular"])
+                cmp_scrape(L, viol, "html", H, R, T, c["angular"], ysign(fr))
                 exp_ids = R["adjusted_order"]
                 for got, exp, nm in ((H["ids"], exp_ids, "adjusted"), (H["fixed_ids"], list(R["fixed"]), "fixed"),
                                      (H["orient_ids"], [o[0] for o in R["orientations"]], "orientation")):
@@ -1378,7 +1421,7 @@ def _run_case(L, seed, i, tier, tmp):
                 L.inconc("text layout not recognised")
                 L.ev.append(("note", "case %d: text layout: %r" % (i, e)))
             if S is not None:
-                cmp_scrape(L, viol, "text", S, R, T, c["angular"])
+                cmp_scrape(L, viol, "text", S, R, T, c["angular"], ysign(fr))
     # ---- octave
     octA = gA.files.get("octave")
     if octA is not None and ok:
@@ -1397,6 +1440,12 @@ def _run_case(L, seed, i, tier, tmp):
     if i < 3:
         L.sample(dict(index=i, kind=kind, hostile=cause, ids=[fr.pid(p) for p in net.points][:4], band=bandname,
                       angular=c["angular"], observations=R["equations"] if R else None, lang=c["lang"], encs=c["encs"]))
+
+
+def _sq(t):
+    """runs of blanks -> one blank (str or bytes): column padding of translated words is computed from byte lengths and
+    differs between encodings; that is layout, not content"""
+    return re.sub(rb" +", b" ", t) if isinstance(t, bytes) else re.sub(r" +", " ", t)
 
 
 def ysign(fr):
@@ -1430,6 +1479,8 @@ def consumers(L, viol, c, base, tmp, name, txtB, args, RA):
             L.sanitizer(rr, w, prefix=pre)
         elif rr.timeout:
             L.inconc("timeout")
+        elif rr.rc != 0 and not full and "####" in rr.err:
+            L.count("deformation refused a band-limited covariance matrix with a message")
         else:
             check_deformation(L, viol, rr.out, RA, R2, selfcmp, blank)
 
@@ -1507,11 +1558,13 @@ def languages(L, viol, c, base, tmp, name, txtA, args, R, S):
             except UnicodeDecodeError as e:
                 viol("text:%s:undecodable" % enc, "flat output is not ASCII (--language %s): %s" % (lang, e))
                 continue
-            if len(te) != len(tu):
-                viol("text:%s:length" % enc, "flat output has %d characters, UTF-8 output %d (--language %s)" % (
-                    len(te), len(tu), lang))
+            if len(_sq(te)) != len(_sq(tu)):
+                viol("text:%s:length" % enc, "flat output has %d characters, UTF-8 output %d, runs of blanks counted once "
+                     "(--language %s)" % (len(_sq(te)), len(_sq(tu)), lang))
         else:
-            if eb != want:
+            eb_, want = _sq(eb), _sq(want)
+            if eb_ != want:
+                eb, eb_ = eb_, eb
                 k = next((j for j in range(min(len(eb), len(want))) if eb[j] != want[j]), min(len(eb), len(want)))
                 try:
                     te = eb.decode(codec)
@@ -1519,7 +1572,9 @@ def languages(L, viol, c, base, tmp, name, txtA, args, R, S):
                     viol("text:%s:undecodable" % enc, "output does not decode as %s (--language %s): %s" % (enc, lang, e))
                     continue
                 viol("text:%s:bytes" % enc, "output differs from the %s encoding of the UTF-8 output at byte %d: %r vs %r "
-                     "(--language %s)" % (enc, k, eb[max(0, k - 12):k + 12], want[max(0, k - 12):k + 12], lang))
+                     "(--language %s; runs of blanks counted once)" % (
+                         enc, k, eb[max(0, k - 12):k + 12], want[max(0, k - 12):k + 12], lang))
+                eb = eb_
             te = eb.decode(codec, "replace")
         try:
             Se = scrape_text(te, R)
@@ -1556,7 +1611,7 @@ def run(tier, seed, only=None):
         attach = {}
         if any(e[0] == "violation" for e in L.ev):
             c = gen_case(seed, i)
-            attach = dict(input=netgen.to_gkf(c["net"], c["frame"]), input_epoch2=netgen.to_gkf(c["netb"], c["frame"]),
+            attach = dict(input=gkf(c["net"], c["frame"]), input_epoch2=gkf(c["netb"], c["frame"]),
                           tier=tier)
         for e in [e for e in L.ev if e[0] == "note"]:
             notes.append(e[1])
